@@ -13,6 +13,9 @@
 //   postfail <hex message>                     a TestPlugin's postTestAction does result.addFailure(TestFailure(&test, message))
 //   checks <n>                                 countCheck() n times
 //   tick <ms>                                  the stubbed millisecond clock advances
+//   realio                                     real-I/O sub-mode for the next run(s): the file / stdout function pointers stay at the
+//                                              platform's real implementations (see h_c16.cpp / h_c20.cpp)
+//   separate                                   (C20, with realio) run with -p: every test in its own process
 //   run
 //
 // The millisecond clock and the time string are stubbed through their function-pointer seams:
@@ -108,8 +111,9 @@ struct Registry {
     std::string package;
     bool has_filter; std::string filter; bool strict, invert;
     int verbosity;
+    bool realio, separate;
     std::vector<Script> scripts;
-    Registry() : has_filter(false), strict(false), invert(false), verbosity(0) {}
+    Registry() : has_filter(false), strict(false), invert(false), verbosity(0), realio(false), separate(false) {}
 };
 
 inline bool is_number(const std::string& s) {
@@ -133,6 +137,8 @@ inline std::string join(const vh::Words& w) {
 // applies one definition line; false = malformed / not applicable (printed as `> skip`)
 inline bool apply_op(Registry& r, const vh::Words& w) {
     if (w[0] == "package" && w.size() == 2 && is_hex(w[1])) { r.package = vh::unhex(w[1]); return true; }
+    if (w[0] == "realio" && w.size() == 1) { r.realio = true; return true; }
+    if (w[0] == "separate" && w.size() == 1) { r.separate = true; return true; }
     if (w[0] == "verbose" && w.size() == 2 && (w[1] == "0" || w[1] == "1" || w[1] == "2")) { r.verbosity = w[1][0] - '0'; return true; }
     if (w[0] == "filter" && w.size() == 4 && is_hex(w[1])) {
         r.has_filter = true; r.filter = vh::unhex(w[1]); r.strict = w[2] == "1"; r.invert = w[3] == "1"; return true;
@@ -166,32 +172,43 @@ inline bool apply_op(Registry& r, const vh::Words& w) {
     return false;
 }
 
-// builds the private registry (tests in script order) and runs it with `out`
-inline void run_registry(const Registry& r, TestOutput& out) {
+// the private registry built from the scripts (tests in script order, the scripted plugin installed)
+struct Built {
+    std::vector<UtestShell*> shells;
+    TestRegistry reg;
+    ScriptedPlugin plugin;
+    explicit Built(const Registry& r) {
+        for (size_t i = 0; i < r.scripts.size(); i++) {
+            const Script* s = &r.scripts[i];
+            if (s->ignored) shells.push_back(new ScriptedIgnoredShell(s));
+            else shells.push_back(new ScriptedShell(s));
+        }
+        for (size_t i = shells.size(); i > 0; i--) reg.addTest(shells[i - 1]);     // addTest prepends
+        for (size_t i = 0; i < shells.size(); i++) plugin.scripts[shells[i]] = &r.scripts[i];
+        reg.installPlugin(&plugin);
+    }
+    ~Built() { for (size_t i = 0; i < shells.size(); i++) delete shells[i]; }
+};
+
+inline void stub_clock() {
     GetPlatformSpecificTimeInMillis = fake_millis;
     GetPlatformSpecificTimeString = fake_time_string;
     g_clock = 0;
+}
+
+// builds the private registry and runs it with `out`
+inline void run_registry(const Registry& r, TestOutput& out) {
+    stub_clock();
     out.verbose(r.verbosity == 2 ? TestOutput::level_veryVerbose : r.verbosity == 1 ? TestOutput::level_verbose : TestOutput::level_quiet);
-    std::vector<UtestShell*> shells;
-    for (size_t i = 0; i < r.scripts.size(); i++) {
-        const Script* s = &r.scripts[i];
-        if (s->ignored) shells.push_back(new ScriptedIgnoredShell(s));
-        else shells.push_back(new ScriptedShell(s));
-    }
-    TestRegistry reg;
-    for (size_t i = shells.size(); i > 0; i--) reg.addTest(shells[i - 1]);     // addTest prepends
-    ScriptedPlugin plugin;
-    for (size_t i = 0; i < shells.size(); i++) plugin.scripts[shells[i]] = &r.scripts[i];
-    reg.installPlugin(&plugin);
+    Built b(r);
     TestFilter filter(r.filter.c_str());
     if (r.strict) filter.strictMatching();
     if (r.invert) filter.invertMatching();
-    if (r.has_filter) reg.setNameFilters(&filter);
+    if (r.has_filter) b.reg.setNameFilters(&filter);
     {
         TestResult result(out);
-        reg.runAllTests(result);
+        b.reg.runAllTests(result);
     }
-    for (size_t i = 0; i < shells.size(); i++) delete shells[i];
 }
 
 } // namespace vo
